@@ -19,7 +19,7 @@ func init() {
 	register(&Prop{
 		ID:    "C12",
 		Level: "exploration",
-		Rule: "PES packets encoded by the reference codec from random/swept header models (all 256 flag bytes x 32 extension subsets incl. pack_header_field, single-bit clock values, all trick mode bytes, " +
+		Rule: "(the write direction also with values behind flags that are not set: the flags decide) PES packets encoded by the reference codec from random/swept header models (all 256 flag bytes x 32 extension subsets incl. pack_header_field, single-bit clock values, all trick mode bytes, " +
 			"CRC values, header stuffing, four PES_packet_length modes) and decoded by the library (NextData through TS packets and the parsePESData hook); writer-supported headers " +
 			"written with WriteData and compared byte for byte after independent reassembly; units of 65 500 bytes .. 1 MiB + 1 through NextData (stage big); PES_header_data_length rewritten to every value below what the flags need: payload boundaries (stage short-header); ClockReference.Duration against big.Int; distinct = hash of the PES bytes; " +
 			"non-trivial = optional header with at least one optional field, or a non-exact length mode",
@@ -540,6 +540,32 @@ func checkPESEncode(c *mon.Ctx, stage string, idx int64, r *rand.Rand, flags, ex
 			h.OptionalHeader.HeaderLength = uint8(r.UintN(256))
 		}
 		c.Count("headers_written_with_stale_length_fields")
+	}
+	if oh := h.OptionalHeader; oh != nil && idx%3 == 0 {
+		// values behind flags that are NOT set (a header struct reused from another unit, a caller that always fills both time
+		// stamps and announces the DTS only when it differs): the flags decide what is written, and how
+		if oh.PTSDTSIndicator != astits.PTSDTSIndicatorBothPresent {
+			oh.DTS = &astits.ClockReference{Base: int64(r.Uint64N(1 << 33))}
+		}
+		if oh.PTSDTSIndicator == astits.PTSDTSIndicatorNoPTSOrDTS {
+			oh.PTS = &astits.ClockReference{Base: int64(r.Uint64N(1 << 33))}
+		}
+		if !oh.HasESCR {
+			oh.ESCR = &astits.ClockReference{Base: int64(r.Uint64N(1 << 33)), Extension: int64(r.IntN(300))}
+		}
+		if !oh.HasDSMTrickMode {
+			oh.DSMTrickMode = &astits.DSMTrickMode{TrickModeControl: uint8(r.IntN(8))}
+		}
+		if !oh.HasESRate {
+			oh.ESRate = uint32(r.UintN(1 << 22))
+		}
+		if !oh.HasPrivateData {
+			oh.PrivateData = gen.Bytes(r, 16)
+		}
+		if !oh.HasExtension2 {
+			oh.Extension2Data = gen.Bytes(r, 1+r.IntN(20))
+		}
+		c.Count("headers_written_with_values_behind_unset_flags")
 	}
 	enc := refts.PESEnc{LengthZero: h.StreamID == 0xE0 || h.StreamID == 0xFD}
 	want, err := refts.EncodePES(model, data, enc, nil)
